@@ -9,7 +9,8 @@ from .c03_loadlinks import canon
 
 PROPERTY = 'C18'
 RULE = ('Hypothesis histories on ONE ModelLoader: input(chunk of the statements of a generated schema + resolvable '
-        'population, statements in a drawn order), build (IntegerGenerator / UUIDGenerator / default), and mutations '
+        'population, statements in a drawn order), input of a text that is rejected after some well-formed statements, build '
+        '(IntegerGenerator / UUIDGenerator / default), and mutations '
         'of the i-th built metamodel: new, delete, attribute write, relate, unrelate, append/insert/delete_attribute, '
         'define_unique_identifier, define_class + define_association + formalize. Oracle: after every step every '
         'other built metamodel re-serializes to the snapshot taken when it was built (or last mutated itself), '
@@ -29,7 +30,11 @@ def cases(draw):
     ops = [['input', ncls + draw(st.integers(0, 6))], ['build', draw(st.sampled_from(['int', 'uuid', 'default']))]]
     for _ in range(draw(st.integers(4, 25))):
         k = draw(st.integers(0, 9))
-        if k <= 2:
+        if k <= 2 and draw(st.integers(0, 3)) == 0:
+            # a text the loader rejects after some well-formed statements: nothing of it may reach a later build
+            ops.append(['reject', draw(st.integers(1, 3)), draw(st.sampled_from(
+                ['CREATE TABLE;', 'INSERT INTO', 'CREATE ROP REF_ID R1 FROM 2 A (Id) TO 1 B (Id);', 'garbage', "INSERT INTO X VALUES ('unterminated);"]))])
+        elif k <= 2:
             ops.append(['input', draw(st.integers(1, 4))])
         elif k <= 4:
             ops.append(['build', draw(st.sampled_from(['int', 'uuid', 'default']))])
@@ -197,6 +202,18 @@ def run_case(case, res=None):
             fed.append(text)
             input_since_build = True
             steps.append('input')
+        elif op[0] == 'reject':
+            # the statements that would come next (they stay pending), followed by text the grammar rejects
+            chunk = stm[pos:pos + op[1]] or stm[:op[1]]
+            try:
+                loader.input('\n'.join(chunk) + '\n' + op[2])
+            except xtuml.ParsingException:
+                steps.append('rejected-input')
+            except Exception as e:
+                fail('input-exception:' + exc_bucket(e), repr(e))
+            else:
+                fail('malformed-input-accepted', 'input %r was accepted' % op[2])
+            input_since_build = True
         elif op[0] == 'build':
             gen = {'int': xtuml.IntegerGenerator, 'uuid': xtuml.UUIDGenerator, 'default': None}[op[1]]
             try:
@@ -250,7 +267,7 @@ def run_case(case, res=None):
             built[i][1] = snapshot(built[i][0], case)
     if res is not None:
         nt = nbuild_after_input >= 1 and schema_mut_before_build
-        cl = ['builds-%d' % min(len(built), 3)] + sorted(set(s for s in steps if s.startswith('mutate-')))
+        cl = ['builds-%d' % min(len(built), 3)] + sorted(set(s for s in steps if s.startswith('mutate-') or s == 'rejected-input'))
         res.case(case, nt, sample={'statements': stm, 'ops': case['ops']} if nt and len(repr(stm)) < 1500 else None, classes=cl)
 
 
